@@ -97,6 +97,7 @@ WATERSHED_OPS = ["ptm1", "ptm2", "ptm3", "ptm1_smooth"]
 ALL_OPS = STAT_OPS + TRANSFORM_OPS + RULE_PART_OPS + WATERSHED_OPS
 # iterative least-squares fits (results compared at 1e-4: float32 outputs of an optimiser) and the dispersion helpers
 FIT_OPS = ["fit_jonswap", "fit_gaussian", "celerity", "wavelen"]
+TRACK_OPS = ["ptm1_track"]      # winds are chunked like the spectra (see call)
 
 
 def call(da, op, ds_accessor=False):
@@ -135,9 +136,20 @@ def call(da, op, ds_accessor=False):
         return s.split(fmin=0.1, fmax=0.3, dmin=40.0, dmax=200.0)
     if op == "scale_by_hs":
         return s.scale_by_hs("0.5*hs+1", hs_min=1.0)
-    if op not in ("ptm1", "ptm1_smooth", "ptm2", "ptm3", "ptm4", "ptm5", "bbox"):
+    if op not in ("ptm1", "ptm1_smooth", "ptm2", "ptm3", "ptm4", "ptm5", "bbox", "ptm1_track"):
         return getattr(s, op)()
     w = wind_args(da) if op in ("ptm1", "ptm1_smooth", "ptm2", "ptm4") else None
+    if op == "ptm1_track":
+        # tracking needs real time stamps: three-hourly records
+        stamps = np.datetime64("2020-01-01T00:00:00") + (np.arange(da.sizes["time"]) * 10800).astype("timedelta64[s]")
+        da = da.assign_coords(time=stamps)
+        s = da.to_dataset(name="efth").spec if ds_accessor else da.spec
+        w = wind_args(da)
+        if getattr(da, "chunks", None) and "time" in da.dims:
+            tch = dict(zip(da.dims, da.chunks))["time"]
+            w = {k: v.chunk({"time": tch}) for k, v in w.items()}       # the winds come from the same chunked dataset
+        r = s.partition.ptm1_track(w["wspd"], w["wdir"], w["dpt"], swells=2)
+        return r[["part_id", "npart_id"]].astype(float)
     if op == "ptm1":
         return s.partition.ptm1(w["wspd"], w["wdir"], w["dpt"], swells=3)
     if op == "ptm1_smooth":
